@@ -151,6 +151,21 @@ def oracle(tier, seed):
                          "signature": f"C11:rate12-table:{nm}"})
             if len(viol) > 5:
                 break
+    # the mass number the accretion / desorption laws take from a species is its nucleon count (sum over the composition), also for
+    # species whose atomic weights do not round to it (chlorine: 35 nucleons, weight 35.45)
+    from naunet.species import Species as _SpM
+    N.fresh()
+    for nm in ["Cl", "HCl", "Cl2", "SiCl", "MgCl", "NaCl", "C2H5Cl", "CCl", "H2Cl+", "#HCl", "#Cl2", "FeS", "MgS", "SiS", "PN", "HF", "CF+", "H2S2", "SO2", "#SiO"]:
+        cases += 1
+        try:
+            got = float(_SpM(nm).massnumber)
+        except Exception as e:
+            viol.append({"property": "C11", "case": "massnumber", "stage": "massnumber", "what": f"massnumber-raises: {nm}: {type(e).__name__}: {e}", "signature": "C11:massnumber:raises"})
+            continue
+        want = indep_mass(nm, None)
+        if want is not None and abs(got - want) > 1e-9:
+            viol.append({"property": "C11", "case": "massnumber", "stage": "massnumber", "what": f"massnumber: {nm} has {want:.0f} nucleons, Species.massnumber (used by the accretion and desorption laws) is {got}",
+                         "signature": "C11:massnumber:value"})
     alphas = [1.0, 0.5] if tier == "quick" else [1.0, 0.5, 2.5e3, 1e-3]
 
     def V(label, what, stage):
